@@ -105,3 +105,32 @@ Example C06_set_monitor_hypothesis_satisfiable :
   map (fun s => let '(cs, co, _, _) := s in (find_cond cs CInTransition, co)) (statuses (set_obs_s x_nsfull_case (SetCorr.model_run x_nsfull_case)))
   = [(None, [x_key 1 1])].
 Proof. exact m06_hypothesis_satisfiable. Qed.
+
+(** The delegated part of the C06 check (m06d = C15Corr.m_relay && C15Corr.m_own: Available=True newly reported only
+    from phase objects obtained in this pass that are Available for their own generation, controlled by the ObjectSet
+    and carrying the phase's objects). REFUTED as an acceptance claim over all cases: the model - like
+    remotePhase.Reconcile - does not compare the spec of an EXISTING phase object with the phase; on
+    [x_other_objects_case] (a phase object controlled by the ObjectSet that lists another object and reports Available)
+    it relays Available=True and the ownership clause raises an alarm on the model itself. *)
+Theorem C06_set_monitor_delegated_refuted :
+  exists c : scase, phase_objects_carried c = false /\ m06d (set_obs_s c (SetCorr.model_run c)) = false.
+Proof. exact m06d_refuted. Qed.
+Print Assumptions C06_set_monitor_delegated_refuted.
+
+(** Partial (excluded: a stored phase object of a delegated phase of an active ObjectSet that is controlled by the
+    ObjectSet but whose spec.objects differ from the phase): otherwise the monitor accepts every pass of the model; its
+    relay clause (m_relay) does so without any hypothesis. *)
+Theorem C06_set_monitor_delegated_sound_partial :
+  forall c : scase, phase_objects_carried c = true -> m06d (set_obs_s c (SetCorr.model_run c)) = true.
+Proof. exact m06d_sound_partial. Qed.
+Print Assumptions C06_set_monitor_delegated_sound_partial.
+
+Theorem C06_set_monitor_relay_sound :
+  forall c : scase, C15Corr.m_relay (as_dobs (set_obs_s c (SetCorr.model_run c))) = true.
+Proof. exact m_relay_sound. Qed.
+Print Assumptions C06_set_monitor_relay_sound.
+
+Example C06_set_monitor_delegated_hypothesis_satisfiable :
+  phase_objects_carried x_carried_case = true /\
+  map (fun s => let '(cs, _, _, _) := s in cond_true cs CAvailable) (statuses (set_obs_s x_carried_case (SetCorr.model_run x_carried_case))) = [true].
+Proof. exact m06d_hypothesis_satisfiable. Qed.
